@@ -1,0 +1,42 @@
+//go:build verif
+
+// Contracts for property C16 (order-independence slice): the exact fallback of Intersection gives the same
+// point when the two edges are swapped in the degenerate (collinear) case, and the stable path is entered with
+// the same sorted argument tuple whichever way the edges are passed. The 8*2^-53 accuracy bound is numerical
+// and is not decided. Comment-only; build tag verif.
+
+package s2
+
+//@ import "github.com/golang/geo/r3"
+
+//@ property C16
+
+//@ func OrderedCCW(a, b, c, o Point) bool
+//@   assumed "orientation predicate (C02); used as a deterministic function of its arguments"
+//@   pure
+
+//@ spec func vcNoNaNPt(p Point) bool = !vcIsNaN(p.X) && !vcIsNaN(p.Y) && !vcIsNaN(p.Z)
+// the exact cross product of the two edge normals rounds to the zero vector: the edges are collinear
+//@ spec func vcCollinear(a0, a1, b0, b1 Point) bool = r3.PreciseVectorFromVector(a0.Vector).Cross(r3.PreciseVectorFromVector(a1.Vector)).Cross(r3.PreciseVectorFromVector(b0.Vector).Cross(r3.PreciseVectorFromVector(b1.Vector))).Vector() == (r3.Vector{})
+
+//@ lemma intersectionExactSwapCollinear(a0 Point, a1 Point, b0 Point, b1 Point)
+//@   fpcmp
+//@   thorough
+//@   timeout 600
+//@   replay in_a0 = PointFromCoords(1, 0, 0); in_a1 = PointFromCoords(0, 1, 0); in_b0 = Point{r3.Vector{X: 0.8660254037844387, Y: 0.5, Z: 0}}; in_b1 = Point{r3.Vector{X: -0.5, Y: 0.8660254037844387, Z: 0}}
+//@   requires vcNoNaNPt(a0) && vcNoNaNPt(a1) && vcNoNaNPt(b0) && vcNoNaNPt(b1)
+//@   requires vcCollinear(a0, a1, b0, b1) && vcCollinear(b0, b1, a0, a1)
+//@   ensures [swap] intersectionExact(a0, a1, b0, b1) == intersectionExact(b0, b1, a0, a1)
+
+// compareEdges does not depend on the direction in which either edge is given
+//@ lemma compareEdgesReversal(a0 Point, a1 Point, b0 Point, b1 Point)
+//@   fpcmp
+//@   requires vcNoNaNPt(a0) && vcNoNaNPt(a1) && vcNoNaNPt(b0) && vcNoNaNPt(b1)
+//@   ensures [reverse-a] compareEdges(a0, a1, b0, b1) == compareEdges(a1, a0, b0, b1)
+//@   ensures [reverse-b] compareEdges(a0, a1, b0, b1) == compareEdges(a0, a1, b1, b0)
+
+// for distinct edges exactly one of the two orders compares less (strict order on unordered edges)
+//@ lemma compareEdgesAntisymmetric(a0 Point, a1 Point, b0 Point, b1 Point)
+//@   fpcmp
+//@   requires vcNoNaNPt(a0) && vcNoNaNPt(a1) && vcNoNaNPt(b0) && vcNoNaNPt(b1)
+//@   ensures [not-both] !(compareEdges(a0, a1, b0, b1) && compareEdges(b0, b1, a0, a1))
